@@ -197,6 +197,9 @@ func (array *Array) RESPBytes() ([]byte, error) {
 	respBytes.WriteRune(lf)
 
 	for n := 0; n < arraySize; n++ {
+		if array.msgs[n] == nil {
+			return respBytes.Bytes(), fmt.Errorf(errorInvalidMessage, "array has a nil element")
+		}
 		bytes, err := array.msgs[n].RESPBytes()
 		if err != nil {
 			return respBytes.Bytes(), err
